@@ -31,6 +31,9 @@
 //   rr7.al<j>      f m k fr rc   j = 0..5: the same for Rational::RationalReconstruction, 7 arguments
 //   rr4.al<j>      f m           j = 0..3: a is f / m, b is f / m
 //   rr6.al<j>      f m ab bb     j = 0..7: a is f / m / a_bound / b_bound, b is f / m / a_bound / b_bound
+//   ctor.init f m k rc / qfk.init f m k rc / qf.init f m rc     the same three callers BEFORE any call of Rational::SetReduce /
+//       SetNoReduce in this process: Rational::flags has the value the library initialises it with (documented: Reduce);
+//       these lines must come first ("BAD-ORDER" otherwise); the reference call uses forcereduce = true
 //   consts                        prints "CONSTS <int Reduce> <int NoReduce> <bool Reduce> <bool NoReduce> <KARA_THRESHOLD> <SQR_THRESHOLD>"
 //                                 (the values the compiled code uses: Rational::flags is passed where a bool forcereduce is expected)
 // The library prints diagnostics on std::cerr when a reconstruction fails: stderr goes to /dev/null.
@@ -49,6 +52,7 @@
 using namespace Givaro;
 
 static bool B(const Integer& x) { return x != 0; }
+static bool flags_touched = false;      // has this process called Rational::SetReduce / SetNoReduce yet?
 
 template <class Field>
 static void polycase(const std::string& v, const std::vector<Integer>& a) {
@@ -172,9 +176,25 @@ int main() {
         else if (v == "rr4.zring" && a.size() == 2) ok = ZZ.RationalReconstruction(num, den, a[0], a[1]);
         else if (v == "rr6.static" && a.size() == 4) ok = Rational::RationalReconstruction(num, den, a[0], a[1], a[2], a[3]);
         else if (v == "rr6.zring" && a.size() == 4) ok = ZZ.RationalReconstruction(num, den, a[0], a[1], a[2], a[3]);
+        else if (v == "ctor.init" || v == "qfk.init" || v == "qf.init") {
+            size_t need = (v == "qf.init") ? 3 : 4;
+            if (a.size() != need) { std::cout << "BAD-LINE" << std::endl; continue; }
+            if (flags_touched) { std::cout << "BAD-ORDER" << std::endl; continue; }
+            Rational r(Integer(5), Integer(7));
+            if (v == "ctor.init") r = Rational(a[0], a[1], a[2], B(a[3]));
+            else if (v == "qfk.init") QQ.ratrecon(r, a[0], a[1], a[2], B(a[3]));
+            else QQ.ratrecon(r, a[0], a[1], B(a[2]));
+            num = r.nume(); den = r.deno();
+            Integer sn(0), sd(0);
+            Integer kk = (v == "qf.init") ? Givaro::sqrt(a[1]) : a[2];
+            ok = Rational::ratrecon(sn, sd, a[0], a[1], kk, true, true);
+            std::cout << (ok ? 1 : 0) << " " << num << " " << den << " " << sn << " " << sd << std::endl;
+            continue;
+        }
         else if (v == "ctor" || v == "ctor.dflt" || v == "qfk" || v == "qfk.dflt" || v == "qf" || v == "qf.dflt") {
             size_t fi = (v == "qf" || v == "qf.dflt") ? 2 : 3;
             if (a.size() <= fi) { std::cout << "BAD-LINE" << std::endl; continue; }
+            flags_touched = true;
             if (B(a[fi])) Rational::SetReduce(); else Rational::SetNoReduce();
             Rational r(Integer(5), Integer(7));
             if (v == "ctor") r = Rational(a[0], a[1], a[2], B(a[4]));
